@@ -32,4 +32,10 @@ PROPS = {
         rule="random handle histories mixing Close (then every method), Remove/Rename of the handle's path and I/O through the older handle; distinct = distinct term",
         level_text="TODO", level_note="TODO", assumptions=[],
     ),
+    "C05": dict(
+        imports="Base.Path KV.Types KV.FS KV.Handle KV.Run KV.Corr", check="C05_check", ctype="kv_case",
+        show="run kv_init (fst c)", n=dict(quick=500, thorough=10000), chunk=100,
+        rule="state-aware namespace histories biased to failing calls; every failing call's error (type, path fields, sentinel class) compared with os; distinct = distinct term",
+        level_text="TODO", level_note="TODO", assumptions=[],
+    ),
 }
